@@ -98,15 +98,29 @@ func c9NameIdx(name string) int {
 	return -1
 }
 
-// c9TagRR: the one answer record the scripted upstream generates for q; the address encodes (name index, qtype).
+// c9TagRR: the one answer record the scripted upstream generates for q; its rdata encodes (name index, qtype):
+// A 10.9.<i>.1, AAAA fd09::<i>:1c, SVCB/HTTPS priority <i>*100+qtype.
 func c9TagRR(q dnsmessage.Question) dnsmessage.RR {
 	i := byte(c9NameIdx(q.Name) + 1)
-	if q.Qtype == dnsmessage.TypeAAAA {
+	switch q.Qtype {
+	case dnsmessage.TypeAAAA:
 		ip := make(net.IP, 16)
 		ip[0], ip[1], ip[14], ip[15] = 0xfd, 0x09, i, 28
 		return &dnsmessage.AAAA{Hdr: dnsmessage.RR_Header{Name: q.Name, Rrtype: dnsmessage.TypeAAAA, Class: dnsmessage.ClassINET, Ttl: 300}, AAAA: ip}
+	case dnsmessage.TypeSVCB:
+		return &dnsmessage.SVCB{Hdr: dnsmessage.RR_Header{Name: q.Name, Rrtype: dnsmessage.TypeSVCB, Class: dnsmessage.ClassINET, Ttl: 300}, Priority: uint16(i)*100 + dnsmessage.TypeSVCB, Target: "svc.c9.test."}
+	case dnsmessage.TypeHTTPS:
+		return &dnsmessage.HTTPS{SVCB: dnsmessage.SVCB{Hdr: dnsmessage.RR_Header{Name: q.Name, Rrtype: dnsmessage.TypeHTTPS, Class: dnsmessage.ClassINET, Ttl: 300}, Priority: uint16(i)*100 + dnsmessage.TypeHTTPS, Target: "svc.c9.test."}}
 	}
 	return &dnsmessage.A{Hdr: dnsmessage.RR_Header{Name: q.Name, Rrtype: dnsmessage.TypeA, Class: dnsmessage.ClassINET, Ttl: 300}, A: net.IPv4(10, 9, i, 1).To4()}
+}
+
+func c9SvcTag(prio uint16) c9Q {
+	i, t := int(prio/100), prio%100
+	if i >= 1 && i <= len(c9Names) && (t == dnsmessage.TypeSVCB || t == dnsmessage.TypeHTTPS) {
+		return c9Q{c9Names[i-1], t}
+	}
+	return c9Q{}
 }
 
 // c9RRFor: which question was this record generated for ("" name = not a harness record).
@@ -122,6 +136,10 @@ func c9RRFor(rr dnsmessage.RR) c9Q {
 		if ip != nil && ip[0] == 0xfd && ip[1] == 0x09 && ip[15] == 28 && int(ip[14]) >= 1 && int(ip[14]) <= len(c9Names) {
 			return c9Q{c9Names[ip[14]-1], dnsmessage.TypeAAAA}
 		}
+	case *dnsmessage.SVCB:
+		return c9SvcTag(x.Priority)
+	case *dnsmessage.HTTPS:
+		return c9SvcTag(x.Priority)
 	}
 	return c9Q{}
 }
@@ -147,9 +165,14 @@ func c9Answer(id uint16, q dnsmessage.Question) *dnsmessage.Msg {
 func c9Foreign(q dnsmessage.Question, kind string) dnsmessage.Question {
 	f := q
 	if kind == "type" {
-		if q.Qtype == dnsmessage.TypeA {
+		switch q.Qtype {
+		case dnsmessage.TypeA:
 			f.Qtype = dnsmessage.TypeAAAA
-		} else {
+		case dnsmessage.TypeSVCB:
+			f.Qtype = dnsmessage.TypeHTTPS
+		case dnsmessage.TypeHTTPS:
+			f.Qtype = dnsmessage.TypeSVCB
+		default:
 			f.Qtype = dnsmessage.TypeA
 		}
 		return f
@@ -173,8 +196,10 @@ type c9Exchange struct {
 }
 
 type c9QueryObs struct {
-	q     C09Query
-	msgs  []*dnsmessage.Msg
+	q    C09Query
+	msgs []*dnsmessage.Msg // what a writer that packs immediately puts on the wire (copy taken inside WriteMsg)
+	held []*dnsmessage.Msg // the very objects handed to WriteMsg, read after the run (a writer may keep the message:
+	// dae's own msgCapturer does, and dns.ResponseWriter implementations may pack after WriteMsg's caller moved on)
 	err   error
 	done  bool
 	start int
@@ -547,6 +572,7 @@ func (w *c9Writer) LocalAddr() net.Addr  { return nil }
 func (w *c9Writer) RemoteAddr() net.Addr { return nil }
 func (w *c9Writer) WriteMsg(m *dnsmessage.Msg) error {
 	w.obs.msgs = append(w.obs.msgs, m.Copy()) // a real writer packs the message now
+	w.obs.held = append(w.obs.held, m)
 	return nil
 }
 func (w *c9Writer) Write(b []byte) (int, error) {
@@ -763,7 +789,7 @@ func c9QuestionsAsked(e *c9Env) []c9Q {
 	// every (name, type) of the harness alphabet: a cache entry must belong to one of them
 	var out []c9Q
 	for _, n := range c9Names {
-		out = append(out, c9Q{n, dnsmessage.TypeA}, c9Q{n, dnsmessage.TypeAAAA})
+		out = append(out, c9Q{n, dnsmessage.TypeA}, c9Q{n, dnsmessage.TypeAAAA}, c9Q{n, dnsmessage.TypeSVCB}, c9Q{n, dnsmessage.TypeHTTPS})
 	}
 	return out
 }
@@ -806,16 +832,22 @@ func c9Check(p *C09Params, r *vsched.Result) (string, any) {
 		for qi, qo := range co.queries {
 			want := c9Q{strings.ToLower(qo.q.Name), qo.q.Qtype}
 			who := fmt.Sprintf("client %d query %d (%s type %d id %#04x)", co.idx, qi, qo.q.Name, qo.q.Qtype, qo.q.ID)
-			for _, m := range qo.msgs {
-				if m.Id != qo.q.ID {
-					return fmt.Sprintf("reply to %s carries transaction ID %#04x", who, m.Id), detail
+			for vi, view := range [][]*dnsmessage.Msg{qo.msgs, qo.held} {
+				what := "reply to "
+				if vi == 1 {
+					what = "the message object handed to the writer of "
 				}
-				if len(m.Question) != 1 || !strings.EqualFold(m.Question[0].Name, qo.q.Name) || m.Question[0].Qtype != qo.q.Qtype || m.Question[0].Qclass != dnsmessage.ClassINET {
-					return fmt.Sprintf("reply to %s carries question %s", who, c9FmtQ(m.Question)), detail
-				}
-				for _, rr := range m.Answer {
-					if !c9RRAnswers(rr, want) {
-						return fmt.Sprintf("reply to %s contains an answer generated for %s", who, c9RRFor(rr)), detail
+				for _, m := range view {
+					if m.Id != qo.q.ID {
+						return fmt.Sprintf("%s%s carries transaction ID %#04x", what, who, m.Id), detail
+					}
+					if len(m.Question) != 1 || !strings.EqualFold(m.Question[0].Name, qo.q.Name) || m.Question[0].Qtype != qo.q.Qtype || m.Question[0].Qclass != dnsmessage.ClassINET {
+						return fmt.Sprintf("%s%s carries question %s", what, who, c9FmtQ(m.Question)), detail
+					}
+					for _, rr := range m.Answer {
+						if !c9RRAnswers(rr, want) {
+							return fmt.Sprintf("%s%s contains an answer generated for %s", what, who, c9RRFor(rr)), detail
+						}
 					}
 				}
 			}
@@ -995,6 +1027,9 @@ func c9Detail(e *c9Env) map[string]any {
 				for _, rr := range m.Answer {
 					s += "<" + c9RRFor(rr).String() + ">"
 				}
+			}
+			for _, m := range qo.held {
+				s += fmt.Sprintf(" | held-object id=%#04x", m.Id)
 			}
 			cl = append(cl, s)
 		}
